@@ -359,7 +359,16 @@ int secp256k1_ecdsa_adaptor_recover(const secp256k1_context* ctx, unsigned char 
      *             inverse and because the scalar_inverse implementation
      *             VERIFY_CHECKs that the inputs are valid scalars.
      *     case 2: sp = 0 impossible because ecdsa_adaptor_sig_deserialize would have already failed
+     *
+     * except that a signature object with s = 0 can be obtained from the signature parsers
+     * (scalar_inverse maps 0 to 0), in which case there is nothing to recover.
      */
+    if (secp256k1_ge_is_infinity(&enckey_expected_ge)) {
+        secp256k1_scalar_clear(&deckey);
+        secp256k1_scalar_clear(&sp);
+        secp256k1_scalar_clear(&s);
+        return 0;
+    }
     secp256k1_eckey_pubkey_serialize33(&enckey_expected_ge, enckey_expected33);
     if (!secp256k1_pubkey_load(ctx, &enckey_ge, enckey)) {
         return 0;
